@@ -1464,7 +1464,9 @@ static inline int64_t SDIV64(int64_t a, int64_t b) { return a / b; }
 /* relational pointer comparison: inside one object the address order is the offset order (lets symex decide `pc < end` for concrete pointers) */
 #ifdef __CPROVER__
 /* a null operand: NULL has address 0 and every object a non-zero address, so the order is decided by the two null tests (lets symex fold `nullptr < &obj`, e.g. std::map keys) */
-#define VERIF_PTRCMP(a, op, b) (((a) == 0 || (b) == 0) ? ((int)((a) != 0) op (int)((b) != 0)) : __CPROVER_same_object((a), (b)) ? (__CPROVER_POINTER_OFFSET(a) op __CPROVER_POINTER_OFFSET(b)) : ((uintptr_t)(a) op (uintptr_t)(b)))
+/* order matters: the same-object test first (it folds for one-past-the-end pointers such as `pad + 64`, for which symex cannot decide `p == 0`;
+   putting the null test first made every CSHA256::Finalize path symbolic: sha256_padding went from 60 s to no verdict in 900 s) */
+#define VERIF_PTRCMP(a, op, b) (__CPROVER_same_object((a), (b)) ? (__CPROVER_POINTER_OFFSET(a) op __CPROVER_POINTER_OFFSET(b)) : ((a) == 0 || (b) == 0) ? ((int)((a) != 0) op (int)((b) != 0)) : ((uintptr_t)(a) op (uintptr_t)(b)))
 #else
 #define VERIF_PTRCMP(a, op, b) ((uintptr_t)(a) op (uintptr_t)(b))
 #endif
